@@ -665,7 +665,13 @@ static Type *array_dimensions(Token **rest, Token *tok, Type *ty) {
   if (ty->kind == TY_VLA || !is_const_expr(expr))
     return vla_of(ty, expr);
 
-  return array_of(ty, eval(expr));
+  // Sizes and offsets are kept in an int.
+  int64_t len = eval(expr);
+  if (len < 0)
+    error_tok(expr->tok, "array has a negative size");
+  if (len > 0 && ty->size > 0 && len > 0x7fffffffL / ty->size)
+    error_tok(expr->tok, "array is too large");
+  return array_of(ty, len);
 }
 
 // type-suffix = "(" func-params
